@@ -306,6 +306,7 @@ def c12(ctx, rep):
     # "tokens that are not sensitive items are carried over verbatim": masks and listed networks are such tokens (the gate names them exactly),
     # and a $9$-looking token the decoder neither refuses nor decodes takes the rest of the file with it
     checks_ip._gate_content(ctx, m, rep, "C12")
+    checks_ip._stage_families(ctx, m, rep, "C12")
     import_clauses(ctx, rep, "C12", "C05", checks_ip.c05, ("C05.preserved-list",))
     import_clauses(ctx, rep, "C12", "C18", _misc.c18, ("C18.valid-alphabet", "C18.valid-min-length", "C18.validated-before-tables", "C18.refusal"), with_k3=False)
 
@@ -947,6 +948,9 @@ def c19(ctx, rep):
     import_clauses(ctx, rep, "C19", "C16", c16, ("C16.mkdirs-guard",), required=False)
     from . import checks_ip as _ip
     import_clauses(ctx, rep, "C19", "C02", _ip.c02, ("C02.result-int", "C02.undo."))
+    # "documented defaults apply": the default tables are what the source says for the whole life of the process (no constructor adds to them)
+    from .checks_misc import argument_mutation_rule
+    argument_mutation_rule(ctx, rep, "C19", [f for f in p.all_functions() if (f.cls is not None and f.name == "__init__") or (f.cls is None and f.name == "anonymize_files")])
     f_main = p.find_function("netconan.main")
     f_files = p.find_function("anonymize_files")
     f_parse = p.find_function("_parse_args")
